@@ -61,7 +61,7 @@ def confirm(sid, src, tests):
         if os.path.exists(os.path.join(src, f)):
             shutil.copy(os.path.join(src, f), os.path.join(d, f))
     m = load_meta(sid)
-    m["property"] = m.get("property") or sid.split("_")[0]
+    m["property"] = sid[:3]
     clean = worktree()
     bad = worktree(os.path.join(d, "patch.diff"))
     try:
